@@ -36,6 +36,9 @@ def gen_ops(res, rng):
     ops = []
     for s in gen.all_strings('().+x', L):
         ops.append(('mpt', s, '+'))
+    for s in gen.all_strings('().+*', 5):            # '*' (the structure placeholder of strands) is a foreign character too
+        if '*' in s:
+            ops.append(('mpt', s, '+'))
     res.dist['exhaustive_len_le'] = L
     for s in gen.all_strings('().+&', 5):
         for b in BREAKS[1:]:
